@@ -87,8 +87,9 @@ ob("GRgetattr_mem", "C10", entry="h_GRgetattr", mode="bounded", unwind=20,
 
 # ---- dfrle.c (old-style RLE of 8-bit rasters, DFTAG_RLE): bounded round trip DFCIrle -> DFCIunrle of the REAL functions on run-shaped rows
 # (a run of R equal bytes + <= 2 other bytes; byte values symbolic, R a constant per obligation -- with a symbolic R cbmc ran out of memory /
-# did not finish in 40 min).  The run lengths sit around the coder's limits (120 per run, 127 per count byte) and their doubles.
-for _r in (0, 1, 2, 3, 4, 10, 20, 40):
+# did not finish in 40 min).  Only rows with a run of <= 4 bytes are tractable, so the coder's run-length limits (120 per run, 127 per
+# count byte -- what seeded change C09-m5 breaks) stay OUTSIDE what is decided.
+for _r in (0, 1, 2, 3, 4):  # runs of >= 10 bytes: cbmc out of memory / no answer in 600 s even with every length a constant
     ob(f"dfrle_roundtrip_r{_r}", "C09", unit="dfrle_u.c", file="hdf/src/dfrle.c", entry="h_dfrle_roundtrip", mode="bounded",
        bound=f"one row = a run of exactly {_r} equal bytes followed by 0..2 other bytes (byte values symbolic)",
        defines=[f"RL_RUN={_r}"], unwind=_r + 8, cex_unwind=_r + 8, objbits=8)
